@@ -332,7 +332,7 @@ namespace detail
         void add(ctpg::no_type&) { error_leaf(); }
         void add(const ctpg::no_type&) { error_leaf(); }
         void add(ctpg::term_value<std::string_view>&& t) { leaf(t.get_value(), t.get_line(), t.get_column()); }
-        void add(ctpg::term_value<char>&& t) { char c = t.get_value(); leaf(std::string_view(&c, 1), t.get_line(), t.get_column()); }
+        void add(ctpg::term_value<char>&& t) { char c = t; ctpg::source_point sp = t.get_sp(); leaf(std::string_view(&c, 1), sp.line, sp.column); }   // conversion operator + get_sp()
         void add(ctpg::term_value<Tok>&& t) { leaf(t.get_value().sv(), t.get_line(), t.get_column()); }
         void error_leaf()
         {
